@@ -57,9 +57,12 @@ def model_rv_deviation(f, vnames, ps, du, lin, n_off, rng, npts=4):
     return worst
 
 
-def compile_model(model, names=("model_rv", "ln_likelihood")):
+def compile_model(model, names=("model_rv", "ln_likelihood"), with_logp=False):
+    """Compiled [model[n] for n in names] (+ the model's log-density without Jacobians as the last output)."""
     import pytensor
     outs = model.replace_rvs_by_values([model[n] for n in names])
+    if with_logp:
+        outs = list(outs) + [model.logp(jacobian=False)]
     f = pytensor.function(model.value_vars, outs, on_unused_input="ignore")
     return f, [v.name for v in model.value_vars]
 
